@@ -134,7 +134,8 @@ def alphabet(kind):
     # ('nosuch', None): unknown event type, ('put', 'novalue'): missing parameter - both are only
     # reported to the caller; the block keeps working and keeps saving its state
     if kind == 'Input':
-        return [('put', 1), ('put', 2), ('put', 9), ('put', 'boom'), ('nosuch', None), ('put', 'novalue')]
+        return [('put', 1), ('put', 2), ('put', 9), ('put', 'boom'), ('nosuch', None), ('put', 'novalue'),
+                ('put', 'NONE')]      # the value None (a state that must not be mistaken for "nothing saved")
     if kind == 'Counter':
         return [('inc', None), ('put', 12), ('dec', None), ('put', 13), ('nosuch', None)]
     if kind == 'GenT':
@@ -178,7 +179,7 @@ def configs(tier):
     # restart with start-up traffic: another block's first output sends an event (plain, filtered
     # out, conditional resolving to 'no event') to the persistent block before / after its restore
     for kind in BLOCKS[:5]:
-        for ev in ('none', 'cond-none', 'cond-put', 'filtered', 'plain'):
+        for ev in ('none', 'cond-none', 'cond-put', 'filtered', 'plain') + (('rejected',) if kind == 'Input' else ()):
             for order in (0, 1):
                 for srcval in (False, True):
                     out.append(dict(mode='traffic', kind=kind, ev=ev, order=order, srcval=srcval))
@@ -190,7 +191,7 @@ def make_blocks(kind, sync, exp):
     bomb = Bomb('bomb')
     kw = dict(persistent=True, sync_state=bool(sync), expiration=exp)
     if kind == 'Input':
-        blk = edzed.Input('blk', initdef=0, allowed=[0, 1, 2, 'boom'],
+        blk = edzed.Input('blk', initdef=0, allowed=[0, 1, 2, 'boom', None],
                           on_output=edzed.Event(bomb, 'put'), **kw)
     elif kind == 'Counter':
         blk = edzed.Counter('blk', modulo=20, initdef=3, on_output=edzed.Event(bomb, 'put'), **kw)
@@ -308,7 +309,7 @@ def first_run(cfg):
                             current['cfg'] = sym[1]
                     elif kind in ('Input', 'Counter'):
                         if sym[1] is not None and sym[1] != 'novalue':
-                            data['value'] = sym[1]
+                            data['value'] = None if sym[1] == 'NONE' else sym[1]
                     elif kind == 'InputExp':
                         data['value'] = f"v{n}"
                         if sym[1] is not None:
@@ -492,7 +493,7 @@ def run_config(cfg):
         if truth is None:
             continue
         key = key_of(kind)
-        entry = st.get(key)
+        entry = st.get(key, NO_ENTRY)
         remaining = None
         if isinstance(entry, tuple) and entry[1] is not None:
             remaining = entry[1] - wall_us / 1e6
@@ -510,7 +511,7 @@ def run_config(cfg):
                               detail={'storage': st})
                 continue
             # what must happen
-            restorable = entry is not None
+            restorable = entry is not NO_ENTRY      # (None is a state like any other)
             if failed and label != 'stop':
                 pass
             expect_restore = restorable
@@ -581,6 +582,7 @@ def run_config(cfg):
     return acc
 
 
+NO_ENTRY = ('no entry',)
 SAVED = {'Input': 2, 'Counter': 11, 'GenT': ('b', None, {'n': 1, 'hold': True}),
          'Timer': ('on', None, {}), 'InputExp': ('valid', None, {'input': 'kept'})}
 
@@ -597,6 +599,9 @@ def run_traffic(cfg, acc):
             'cond-put': edzed.Event('blk', edzed.EventCond(None, etype_ok)),    # srcval True -> None
             'filtered': edzed.Event('blk', etype_ok, efilter=lambda data: False),
             'plain': edzed.Event('blk', etype_ok, efilter=edzed.DataEdit.add(value=1)),
+            # reaches the block (which is initialised early because of it) and is refused by
+            # its validator: the restored state stays
+            'rejected': edzed.Event('blk', etype_ok, efilter=edzed.DataEdit.add(value=99)),
         }[ev]
 
         def mk_src():
